@@ -157,6 +157,50 @@ def inner_reset_then_step(self, action):
     check('reads-never-step-or-reset', lambda: ghost_calls(FS) == 1 and ghost_calls(FR) == 1)
 
 
+@lemma(args={'self': ENV, 'action': 'Action'}, stubs={FR: 'State', FO: 'Observation', DBG: 'bool'}, props=['C04', 'C01', 'C20'])
+def inner_rejected_step_changes_nothing(self, action):
+    """a step that raises (here: the real functional_step rejecting an action outside the action space) leaves the
+    environment as it was: same state, same memoised observation, nothing recomputed"""
+    self.reset()
+    s1 = self.state
+    o1 = self.observation
+    n_fo = ghost_calls(FO)
+    rejected = False
+    try:
+        self.step(action)
+    except ValueError:
+        rejected = True
+    if rejected:
+        check('state-kept', lambda: self.state is s1)
+        o2 = self.observation
+        check('memoised-observation-kept-nothing-recomputed', lambda: o2 is o1 and ghost_calls(FO) == n_fo)
+
+
+@lemma(args=dict(PARTS, seed='int', seed2='int'), stubs={DBG: 'bool', MKRNG: 'Rng'}, props=['C02'])
+def gridworld_reseeding(sspace, aspace, ospace, Rs, T, Ob, Rw, Tm, seed, seed2):
+    """seeding again gives the environment a new generator made from the new seed, as a fresh environment would get"""
+    gw = build(sspace, aspace, ospace, Rs, T, Ob, Rw, Tm, True, seed)
+    try:
+        gw.functional_reset()
+    except ValueError:
+        pass
+    gw.set_seed(seed2)
+    try:
+        gw.functional_reset()
+    except ValueError:
+        pass
+    check('each-seeding-makes-a-generator-from-its-seed', lambda: ghost_calls(MKRNG) == 2
+          and ghost_arg(MKRNG, 0, 0) == seed and ghost_arg(MKRNG, 1, 0) == seed2)
+    check('components-get-the-generator-of-the-latest-seeding', lambda: ghost_calls(Rs) == 2
+          and ghost_kwarg(Rs, 0, 'rng') is ghost_result(MKRNG, 0)
+          and same_generator(ghost_kwarg(Rs, 1, 'rng'), ghost_result(MKRNG, 1)))
+
+
+def same_generator(g, fresh):
+    """the generator made from the new seed, or (natively) a generator brought into exactly its state"""
+    return g is fresh or g.bit_generator.state == fresh.bit_generator.state
+
+
 @lemma(args={'self': ENV, 'action': 'Action'}, stubs={FR: 'State', FS: FSTEP, FO: 'Observation'}, props=['C04', 'C20'])
 def inner_reads_follow_reset_and_step(self, action):
     self.reset()
